@@ -89,8 +89,10 @@ class Run(object):
             d = TorConfig.from_protocol(self.proto)
             self.sim.pump()
             self.config = d.result
+        self.hold_unsub = False     # from the creation reply on, SETEVENTS (giving up HS_DESC) waits for UnsubAck
         self.sim.hold = lambda line: (line.startswith("ADD_ONION") or line.startswith("SETCONF HiddenService") or
-                                      (cfg.startswith("boot_") and line == "GETINFO config/names"))
+                                      (cfg.startswith("boot_") and line == "GETINFO config/names") or
+                                      (self.hold_unsub and line.startswith("SETEVENTS")))
         self.reactor = ListenReactor(fail_bind=(fault == "bind"))
         self.config_d = defer.Deferred()
         self.fired = []
@@ -229,7 +231,10 @@ class Run(object):
                     else:
                         self.config_d.callback(self.config)
                 self.sim.pump()
+            elif a == "UnsubAck":
+                self.sim.release()
             elif a == "CreateReply":
+                self.hold_unsub = True
                 if self.fault == "reject":
                     self.sim.release(b"512 Bad arguments: injected\r\n")
                 else:
@@ -325,13 +330,14 @@ def script_for(cfg, fault):
 
 
 SCRIPTS = {
-    "none": ["Listen", "ConfigReady", "CreateReply", "WaitOver", "StopListening"],
+    "none": ["Listen", "ConfigReady", "CreateReply", "WaitOver", "UnsubAck", "StopListening"],
     "config": ["Listen", "ConfigReady"],
     "bind": ["Listen", "ConfigReady"],
     "reject": ["Listen", "ConfigReady", "CreateReply"],
-    "uploads": ["Listen", "ConfigReady", "CreateReply", "WaitOver"],
+    "uploads": ["Listen", "ConfigReady", "CreateReply", "WaitOver", "UnsubAck"],
     "disconnect_create": ["Listen", "ConfigReady", "Disconnect"],
     "disconnect_wait": ["Listen", "ConfigReady", "CreateReply", "Disconnect"],
+    "disconnect_unsub": ["Listen", "ConfigReady", "CreateReply", "WaitOver", "Disconnect"],
     "invalid": ["Refuse"],
 }
 
@@ -347,7 +353,7 @@ def replay(cfg, fault, noise=""):
         for i, e in enumerate(script):
             out.append(e)
             nxt = script[i + 1]["a"] if i + 1 < len(script) else ""
-            if nxt in ("CreateReply", "WaitOver") or (nxt == "Disconnect" and e["a"] != "Listen"):
+            if nxt in ("CreateReply", "WaitOver", "UnsubAck") or (nxt == "Disconnect" and e["a"] != "Listen"):
                 out.append(dict(a="Foreign", kind=noise))
         script = out
     for e in script:
